@@ -122,6 +122,28 @@ func NewJob(uid string, queue string, preemptible bool, priority int32, minMembe
 	return j
 }
 
+// NewJobWithSubGroups is NewJob for a PodGroup that declares sub-groups (tasks carry their sub-group
+// label from NewTask).
+func NewJobWithSubGroups(uid string, queue string, preemptible bool, priority int32, minMember int32, subGroups []enginev2alpha2.SubGroup, vm *resource_info.ResourceVectorMap, tasks ...*pod_info.PodInfo) *podgroup_info.PodGroupInfo {
+	j := podgroup_info.NewPodGroupInfoWithVectorMap(common_info.PodGroupID(uid), vm)
+	pg := &enginev2alpha2.PodGroup{ObjectMeta: metav1.ObjectMeta{Name: uid, Namespace: "ns", UID: types.UID(uid)}}
+	pg.Spec.Queue = queue
+	pg.Spec.MinMember = minMember
+	pg.Spec.SubGroups = subGroups
+	j.SetPodGroup(pg)
+	j.Priority = priority
+	if preemptible {
+		j.Preemptibility = enginev2alpha2.Preemptible
+	} else {
+		j.Preemptibility = enginev2alpha2.NonPreemptible
+	}
+	for _, t := range tasks {
+		t.Job = common_info.PodGroupID(uid)
+		j.AddTaskInfo(t)
+	}
+	return j
+}
+
 func Name(prefix string, i int) string { return fmt.Sprintf("%s%d", prefix, i) }
 
 // SetNodePods replaces the node's pod-slot capacity by a (possibly symbolic) value.
